@@ -38,6 +38,13 @@ pub fn hist_plan(prop: &str, tier: &str) -> Plan {
     match prop {
         "C01" => plan_c01(thorough),
         "C02" => plan_c02(thorough),
+        "C05" => crate::plans2::plan_c05(thorough),
+        "C06" => crate::plans2::plan_c06(thorough),
+        "C09" => crate::plans2::plan_c09(thorough),
+        "C10" => crate::plans2::plan_c10(thorough),
+        "C11" => crate::plans2::plan_c11(thorough),
+        "C12" => crate::plans2::plan_c12(thorough),
+        "C13" => crate::plans2::plan_c13(thorough),
         "C16" => plan_c16(thorough),
         "C19" => plan_c19(thorough),
         _ => panic!("no history plan for {prop}"),
@@ -299,6 +306,17 @@ pub fn crash_histories(thorough: bool) -> Vec<(Value, usize, u64)> {
     ];
     for (ops, t) in ex1 {
         out.push((hist("empty", u4.clone(), &cfg1, ops), t, 3));
+    }
+    // log length 1: rolling back everything that is retained after the older records were pruned
+    let mut cfg_l1 = cfg_crash();
+    cfg_l1.seg_size = 4096;
+    cfg_l1.log_len = 1;
+    for (ops, t) in [
+        (vec![c(vec![w(0, 1)]), c(vec![w(1, 1)]), json!({"rb": 1})], 2usize),
+        (vec![c(vec![w(0, 1)]), c(vec![w(1, 1)]), json!({"rb": 1}), c(vec![w(2, 1)])], 3),
+        (vec![c(vec![w(0, 1)]), c(vec![w(1, 1)]), json!({"rb": 1}), json!({"reopen": {}})], 3),
+    ] {
+        out.push((hist("empty", u4.clone(), &cfg_l1, ops), t, 3));
     }
     // cluster: page elision / un-elision and tombstones under crash
     let cl = vec!["CL12:17-23"];
